@@ -225,6 +225,8 @@ def leaf_templates():
     pair("len:arrP", lambda nm: (lambda l: [length(l, "char"), array(nm(), "P", length=l)])(nm()))
     pair("len:darrU", lambda nm: (lambda l: [length(l, "char"), array(nm(), "U", length=l, delimited="true")])(nm()))
     pair("len:darrU-nt", lambda nm: (lambda l: [length(l, "char"), array(nm(), "U", length=l, delimited="true", trailing_delimiter="false")])(nm()))
+    pair("optlen:str", lambda nm: (lambda l: [length(l, "char", optional="true"), field(nm(), "string", length=l, optional="true")])(nm()))
+    pair("optlen:arr", lambda nm: (lambda l: [length(l, "char", optional="true"), array(nm(), "short", length=l, optional="true")])(nm()))
     t.append(_T("len:sep", 3, lambda nm: (lambda l: [length(l, "char"), field(nm(), "short"), field(nm(), "string", length=l)])(nm()), "length pairs"))
     # arrays
     one("arr:char", "arrays", lambda n: array(n, "char"))
